@@ -33,6 +33,23 @@ components is re-run with each component alone (delta debugging by construction)
 name single root causes; a failure only the combination shows is reported as `combo:...`.
 Non-trivial: every M was released to T strictly after T's KEXINIT was pushed and before T pushed
 a NEWKEYS (global order from the wire log; also structurally forced: P's KEXINIT is behind M).
+
+family "storm" (`execute_storm`; concurrent user threads of the quantifier): n = 2-16 harness threads stream numbered
+records on n channels of T while re-exchanges start one after the other (rounds: T.renegotiate_keys() | the puppet's |
+alternating; or mode "threshold": the streams themselves cross a lowered REKEY_PACKETS again and again). For every
+round the streams are (re)started, the exchange is triggered while all of them are writing, and a sentinel round trip
+after the puppet's NEWKEYS separates it from the next one. Schedule dimensions: number of senders, interpreter switch
+interval (0 = default, 5-500 us), records per sender and round, and `stall` = the senders are descheduled for 1-4 ms at
+the entry of `Packetizer.send_message` (harness subclass passed through the public `Transport(packetizer_class=)`;
+`StallCtl`), i.e. after the transport decided to send and before the packetizer took the message - this owns the
+interleaving "sender between gate and wire when the exchange starts" instead of hoping for it; "free-running" cases
+(no stall, 8-16 senders) leave it to the interpreter. Same oracle, on the independent decode of everything T wrote:
+foreign-type-in-kex (no type >= 50 between any KEXINIT and the next NEWKEYS; a fact of the recorded wire, reported
+without confirming re-runs; a free-running hit is re-run with stalled senders to get a replay that reproduces),
+session-died (every round completes, both sides up, sentinels answered), op-lost (per channel, the bytes on the wire
+are exactly the records the application sent, in order; no sender error). Bucket `concurrent-senders`. Non-trivial:
+>= 2 senders and >= 1 exchange whose KEXINIT was written while stream records were going out (within the 60
+preceding wire events) and that was followed by more records after NEWKEYS.
 """
 import concurrent.futures
 import os
@@ -61,7 +78,11 @@ RULE = (
     "hypothesis-drawn cases: initiator "
     "explicit|threshold|crossing|peer, 1-3 messages, 0-2 queued user operations (send, stream, global request wait 0|1, exec, channel "
     "open, port forward request, renegotiate_keys) started after the tested side's KEXINIT or after its NEWKEYS (peer's NEWKEYS held), keepalive on/off, hold time, release portions, fragmentation plan (0-10 items: max recv size 1-64 | GAP); non-trivial = every M released to the tested side strictly between its KEXINIT and "
-    "its NEWKEYS in the global wire order (or keepalive due while the exchange was held >= 0.3 s); distinct by the case dict"
+    "its NEWKEYS in the global wire order (or keepalive due while the exchange was held >= 0.3 s); distinct by the case dict; "
+    "family storm: role x initiator explicit|peer|alternate|threshold x 2-16 concurrent sender threads streaming on their own channels "
+    "while 1-3 (thorough: up to 40) consecutive exchanges start x senders stalled 1-4 ms at the packetizer entry every 1-3 sends | "
+    "free-running x interpreter switch interval default|5|50|500 us x record size 8|64|200 x 10-80 records per sender and round (<= 6000 per session); "
+    "non-trivial = >= 2 senders and an exchange whose KEXINIT was written while records were going out"
 )
 
 WAIT = 12.0
@@ -589,6 +610,361 @@ def execute(case):
     return dict(viol=viol, nontrivial=nontrivial, info=info)
 
 
+# ----------------------------------------------------------------------------- concurrent senders ("storm" family)
+
+
+class StallCtl:
+    """Schedule control at a public boundary: the tested transport runs `Transport(packetizer_class=...)` with a
+    Packetizer subclass whose send_message() first calls `enter()`. For the harness' sender threads every `every`-th
+    call sleeps `ms` milliseconds there, i.e. the thread is descheduled after the transport has decided to send the
+    message and before the packetizer has taken it (nothing else changes: the same bytes are written afterwards)."""
+
+    def __init__(self, plan, wire):
+        self.ms = (plan or {}).get("ms", 0)
+        self.every = max(1, (plan or {}).get("every", 1))
+        self.on = bool(plan) and self.ms > 0
+        self.calls = {}
+        self.stalls = 0
+        self.wire = wire
+
+    def enter(self):
+        if not self.on:
+            return
+        name = threading.current_thread().name
+        if not name.startswith("c11-snd-"):
+            return
+        n = self.calls[name] = self.calls.get(name, 0) + 1
+        if n % self.every == 0:
+            self.stalls += 1
+            time.sleep(self.ms / 1000.0)
+
+
+def storm_packetizer(base, ctl, consts):
+    def send_message(self, data):
+        ctl.enter()
+        return base.send_message(self, data)
+
+    return type("StormPacketizer", (base,), dict(consts, send_message=send_message))
+
+
+STORM_CAP = 6000  # records per session (keeps the 2 MiB channel window of the mute puppet open and the wire log small)
+
+
+def execute_storm(case):
+    """n user threads stream numbered records on n channels of the tested side while `rounds` re-exchanges are run
+    one after the other (initiator per round: "explicit" = T.renegotiate_keys(), "peer" = the puppet's; or
+    mode "threshold": the streams themselves cross REKEY_PACKETS again and again). Returns like execute()."""
+    from paramiko.packet import Packetizer
+
+    role, n = case["role"], case["senders"]
+    rounds = list(case["rounds"])
+    rec = case["rec"]
+    link = net.Link()
+    wire = c10.Wire(link)
+    ctl = StallCtl(case.get("stall"), wire)
+    consts = {}
+    if case.get("rp"):
+        consts = dict(REKEY_PACKETS=case["rp"])
+    tkw = dict(packetizer_class=storm_packetizer(Packetizer, ctl, consts))
+    policy = {"check_auth_password": peers.AUTH_SUCCESSFUL, "check_global_request": False}
+    if role == "client":
+        link, tc, ts = peers.make_pair(client_kw=tkw, server_cls=peers.Puppet, link=link)
+        T, P = tc, ts
+        out_d, in_d = link.ab, link.ba
+    else:
+        link, tc, ts = peers.make_pair(client_cls=peers.Puppet, server_kw=tkw, link=link)
+        T, P = ts, tc
+        out_d, in_d = link.ba, link.ab
+    viol = []
+    info = {}
+    threads = []
+    sent = [0] * n
+    errs = {}
+    stop = threading.Event()
+    old_switch = sys.getswitchinterval()
+    try:
+        T.clear_to_send_timeout = CTS_TIMEOUT
+        ce, se = peers.start_both(tc, ts, peers.RecordingServer(policy))
+        if ce or se:
+            raise core.HarnessError("handshake failed: %r %r" % (ce, se))
+        tc.auth_password("u", "pw")
+        chans_c, chans_s = [], []
+        for _ in range(n):
+            chans_c.append(tc.open_session(timeout=WAIT))
+            sc = ts.accept(WAIT)
+            if sc is None:
+                raise core.HarnessError("no channel accepted")
+            chans_s.append(sc)
+        chT = chans_c if role == "client" else chans_s
+        chP = chans_s if role == "client" else chans_c
+        p_ids = [c.get_id() for c in chP]
+        P.raw()
+        if not link.wait_quiescent(WAIT):
+            raise core.HarnessError("link not quiescent after setup")
+        base_sent = len(out_d.sent)
+
+        burst = threading.Event()  # explicit / peer rounds: the streams run around the start of every exchange
+        t_end = [None]
+
+        round_no = [0]
+        quota = case.get("quota") or STORM_CAP
+
+        def sender(j):
+            ch = chT[j]
+            cap = min(max(200, STORM_CAP // n), 1000000 // rec)
+            my_round, my_count = -1, 0
+            try:
+                while sent[j] < cap and not stop.is_set():
+                    if not burst.wait(0.05):
+                        continue
+                    if t_end[0] is not None and time.time() > t_end[0]:
+                        break
+                    if my_round != round_no[0]:
+                        my_round, my_count = round_no[0], 0
+                    if my_count >= quota:
+                        time.sleep(0.001)  # this round's records are out: wait for the next exchange
+                        continue
+                    ch.sendall(c10.pattern(30 + j, sent[j] * rec, rec))
+                    sent[j] += 1
+                    my_count += 1
+            except Exception as e:  # judged by the oracle
+                errs[j] = repr(e)
+
+        if case.get("switch_us"):
+            sys.setswitchinterval(case["switch_us"] / 1e6)
+        for j in range(n):
+            th = threading.Thread(target=sender, args=(j,), daemon=True, name="c11-snd-%d" % j)
+            threads.append(th)
+        for th in threads:
+            th.start()
+        if case["mode"] == "threshold":
+            # the streams themselves cross REKEY_PACKETS again and again for dur_ms (pacing only)
+            t_end[0] = time.time() + case.get("dur_ms", 400) / 1000.0
+            burst.set()
+
+        def p_newkeys():
+            return sum(1 for e in list(P.packetizer.sent_log) if e[1] == 21)
+
+        def n_replies():
+            return sum(1 for e in list(P.log) if e[1] in (81, 82))
+
+        def barrier(k_newkeys, why):
+            """both sides have finished the exchange: the puppet's NEWKEYS is out and a round trip started after it
+            has come back (the tested side's answer follows its own NEWKEYS on the wire)."""
+            end = time.time() + WAIT
+            while time.time() < end and T.is_active() and P.is_active() and not (p_newkeys() >= k_newkeys and P.clear_to_send.is_set()):
+                time.sleep(0.002)
+            if p_newkeys() < k_newkeys or not P.clear_to_send.is_set() or not (T.is_active() and P.is_active()):
+                return "%s: exchange not finished by the peer (its NEWKEYS: %d of %d; active(T,P)=%r)" % (why, p_newkeys(), k_newkeys, (T.is_active(), P.is_active()))
+            r0 = n_replies()
+            try:
+                P.send_raw_seq(peers.m_global_request(SENTINEL, True))
+            except (EOFError, OSError) as e:
+                return "%s: sentinel not sent: %r" % (why, e)
+            got = P.wait_log(lambda lg: sum(1 for e in lg if e[1] in (81, 82)) > r0 or not T.is_active(), WAIT)
+            if n_replies() <= r0:
+                return "%s: sentinel round trip after the exchange not answered (active(T,P)=%r)" % (why, (T.is_active(), P.is_active()))
+            return None
+
+        problem = None
+        nk = p_newkeys()
+        done_rounds = 0
+        for r, init in enumerate(rounds):
+            res = {}
+
+            def go(t=(T if init == "explicit" else P)):
+                try:
+                    t.renegotiate_keys()
+                    res["ok"] = True
+                except Exception as e:  # judged by the oracle
+                    res["exc"] = repr(e)
+
+            round_no[0] += 1
+            burst.set()
+            out_d.wait_sent(len(out_d.sent) + n, 0.5)  # every stream is writing again
+            th = threading.Thread(target=go, daemon=True, name="c11-init")
+            threads.append(th)
+            th.start()
+            th.join(WAIT)
+            burst.clear()
+            if not res.get("ok"):
+                problem = "round %d (%s): renegotiate_keys() %s" % (r, init, res.get("exc", "did not return within %.0f s" % WAIT))
+                break
+            nk += 1
+            problem = barrier(nk, "round %d (%s)" % (r, init))
+            if problem:
+                break
+            done_rounds += 1
+        if case["mode"] == "threshold" and problem is None:
+            # the streams drive the exchanges themselves: let them run out
+            end = time.time() + 2 * WAIT
+            for th in threads:
+                th.join(max(0.0, end - time.time()))
+        stop.set()
+        burst.set()
+        for th in threads:
+            th.join(WAIT)
+        hung = [th.name for th in threads if th.is_alive()]
+        if problem is None and T.is_active() and P.is_active():
+            # nothing pending any more (pacing), then a last round trip
+            end = time.time() + WAIT
+            while time.time() < end and T.is_active() and P.is_active():
+                if T.clear_to_send.is_set() and P.clear_to_send.is_set() and not T.packetizer.need_rekey() and link.quiescent():
+                    break
+                time.sleep(0.005)
+            problem = barrier(p_newkeys(), "final")
+        info["stalls"] = ctl.stalls
+        info["rounds_done"] = done_rounds
+        alive = (T.is_active(), P.is_active())
+        t_exc = T.get_exception() if not alive[0] else None
+        snap = wire.snapshot()
+    finally:
+        sys.setswitchinterval(old_switch)
+        stop.set()
+        peers.shutdown(tc, ts)
+        for th in threads:
+            th.join(5)
+    # ---- oracle on the independent decode of everything the tested side wrote
+    try:
+        dec = wire.decode(tc, ts, snap)
+    except R.RefError as e:
+        viol.append(("session-died", "wire-undecodable: %s; %s" % (e, problem)))
+        return dict(viol=viol, nontrivial=False, info=info)
+    rows = dec[out_d.name]
+    foreign = []
+    exchanges = 0
+    active = 0  # exchanges with stream records on the wire before the KEXINIT and after the NEWKEYS
+    in_kex = False
+    first = True
+    kx_g, nk_g = [], []
+    for g, ep, seq, ty, pl, ln in rows:
+        if ty == 20:
+            if first:
+                first = False  # the initial exchange
+                in_kex = None
+            else:
+                in_kex = True
+                kx_g.append(g)
+        elif ty == 21:
+            if in_kex:
+                exchanges += 1
+                nk_g.append(g)
+            in_kex = False
+        elif in_kex and not (1 <= ty <= 49):
+            foreign.append((g, ty, pl[:12].hex()))
+    data_g = [r[0] for r in rows if r[3] == 94]
+    for a, b in zip(kx_g, nk_g):
+        # stream records were being written right up to this KEXINIT and the streams went on after the NEWKEYS
+        if any(a - 60 < g < a for g in data_g) and any(g > b for g in data_g):
+            active += 1
+    info["exchanges"] = exchanges
+    info["active_exchanges"] = active
+    if foreign:
+        viol.append(("foreign-type-in-kex", "%d message(s) of types %r written between a KEXINIT and the following NEWKEYS of the tested side (first: type %d payload %s); %d sender threads, %d exchanges" % (len(foreign), sorted(set(f[1] for f in foreign)), foreign[0][1], foreign[0][2], n, exchanges)))
+    if alive != (True, True) or problem is not None or in_kex:
+        viol.append(("session-died", "active(T,P)=%r T exception=%r; %s; exchanges completed on the wire: %d; exchange open at the end: %s" % (alive, t_exc, problem or "-", exchanges, bool(in_kex))))
+    else:
+        lost = []
+        for j in range(n):
+            got = b"".join(r[4][8:] for r in rows if r[3] == 94 and r[4][:4] == R.u32(p_ids[j]))
+            want = c10.pattern(30 + j, 0, sent[j] * rec)
+            if got != want and got != c10.pattern(30 + j, 0, (sent[j] + 1) * rec):
+                lost.append("stream %d: %d bytes on the wire, %d sent by the application (%s)" % (j, len(got), len(want), "prefix" if want.startswith(got) else "content differs"))
+            if j in errs:
+                lost.append("sender %d failed: %s" % (j, errs[j]))
+        if hung:
+            lost.append("threads still blocked: %r" % hung)
+        if case["mode"] != "threshold" and exchanges < len(rounds):
+            lost.append("%d of %d requested exchanges seen on the wire" % (exchanges, len(rounds)))
+        if lost:
+            viol.append(("op-lost", "; ".join(lost[:6])))
+    info["records"] = sum(sent)
+    return dict(viol=viol, nontrivial=bool(n >= 2 and active >= 1), info=info)
+
+
+def storm_case(role, mode="alternate", senders=4, k=2, stall=None, switch_us=0, rec=64, rp=0, dur_ms=0, quota=40):
+    rounds = {"explicit": ["explicit"] * k, "peer": ["peer"] * k, "alternate": (["explicit", "peer"] * k)[:k], "threshold": []}[mode]
+    return dict(family="storm", role=role, mode=mode, senders=senders, rounds=rounds, stall=stall, switch_us=switch_us, rec=rec, rp=rp if mode == "threshold" else 0, dur_ms=dur_ms if mode == "threshold" else 0, quota=0 if mode == "threshold" else quota)
+
+
+@st.composite
+def storm_cases(draw, big=False):
+    mode = draw(st.sampled_from(["explicit", "peer", "alternate", "alternate", "threshold"]))
+    stall = draw(st.sampled_from([0, 0, 1, 1, 1] if not big else [0, 0, 0, 1]))
+    senders = draw(st.integers(2, 6)) if stall else draw(st.sampled_from([4, 8, 12, 16]))
+    k = draw(st.integers(1, 3)) if not big else (draw(st.integers(1, 4)) if stall else draw(st.integers(8, 40)))
+    return storm_case(
+        draw(st.sampled_from(["client", "server"])),
+        mode,
+        senders,
+        k,
+        dict(ms=draw(st.sampled_from([1, 2, 4])), every=draw(st.integers(1, 3))) if stall else None,
+        draw(st.sampled_from([0, 0, 5, 50, 500])),
+        draw(st.sampled_from([8, 64, 200])),
+        draw(st.integers(30, 60)),
+        draw(st.sampled_from([300, 450])),
+        draw(st.sampled_from([10, 40, 80] if stall or not big else [10, 20, 40])),
+    )
+
+
+def storm_classes(case, r):
+    i = r["info"]
+    cls = ["storm", "role:" + case["role"], "storm:init:" + case["mode"], "storm:senders:%d" % case["senders"], "storm:" + ("stalled-at-packetizer-entry" if case.get("stall") else "free-running")]
+    cls += ["storm:switch-interval-us:%d" % case.get("switch_us", 0), "storm:exchanges:%d" % min(i.get("exchanges", 0), 10)]
+    if i.get("active_exchanges"):
+        cls.append("storm:exchange-started-under-streaming-senders")
+        cls.append("storm:%s:%s:exchange-under-senders" % (case["mode"], "stalled" if case.get("stall") else "free"))
+    cls.append("nontrivial" if r["nontrivial"] else "trivial")
+    return cls
+
+
+STORM_BUCKET = "concurrent-senders"
+WIRE_FACTS = ("foreign-type-in-kex",)  # read off the recorded wire by the independent decoder: no timing inference involved
+
+
+def stalled_variant(case):
+    """the same session with the senders descheduled at the packetizer entry: turns a rare interleaving into a
+    (nearly) deterministic one, so that the committed replay reproduces"""
+    if case.get("stall"):
+        return None
+    v = dict(case, stall=dict(ms=2, every=1), switch_us=0, senders=min(case["senders"], 4), rounds=list(case["rounds"])[:2])
+    if case["mode"] == "threshold":
+        v["dur_ms"] = 400
+    return v
+
+
+def judge_storm(ctx, case, r, known, record=True):
+    if record:
+        ctx.case(case, r["nontrivial"], storm_classes(case, r))
+    for clause, detail in r["viol"]:
+        sig = "%s|%s" % (clause, STORM_BUCKET)
+        if sig in known:
+            ctx.violation(clause, STORM_BUCKET, case, detail)
+            continue
+        if ctx.out_of_time():
+            ctx.inconc("failing-case-not-isolated(budget)")
+            continue
+        rep = None
+        v = stalled_variant(case)
+        if v is not None:
+            rv = execute_storm(v)
+            ctx.count("storm:rerun-with-stalled-senders")
+            hit = [x for x in rv["viol"] if x[0] == clause]
+            if hit and (clause in WIRE_FACTS or any(x[0] == clause for x in execute_storm(v)["viol"])):
+                rep = (v, hit[0][1] + " [first seen free-running: %s]" % detail[:200])
+        if rep is None:
+            if clause in WIRE_FACTS:
+                rep = (case, detail)
+            else:
+                # liveness verdicts are timing engines' verdicts: two confirming re-runs
+                if all(any(x[0] == clause for x in execute_storm(case)["viol"]) for _ in range(2)):
+                    rep = (case, detail)
+        if rep is None:
+            ctx.inconc("unconfirmed:" + sig)
+            continue
+        ctx.violation(clause, STORM_BUCKET, rep[0], rep[1])
+
+
 # ----------------------------------------------------------------------------- reporting
 
 
@@ -863,12 +1239,37 @@ def run(ctx):
             rn.judge(batch, rn.map(batch))
 
         ctx.explore(st.lists(cases(), min_size=bsz, max_size=bsz), body, ctx.scale(3, 50), shrink=False)
+
+        # part 3: concurrent user threads streaming on channels while exchanges start (one session at a time: the
+        # interpreter switch interval is process-wide)
+        storm = []
+        stall = dict(ms=2, every=1)
+        for i, role in enumerate(("client", "server")):
+            storm.append(storm_case(role, "alternate", 4, 2, stall))
+            storm.append(storm_case(role, "threshold", 3, 0, dict(ms=1, every=2), rp=40, dur_ms=350))
+            storm.append(storm_case(role, ["peer", "explicit"][i], 3, 2, dict(ms=1, every=3), rec=8))
+            storm.append(storm_case(role, "alternate", [12, 8][i], 6, None, switch_us=[5, 0][i]))
+        storm.append(storm_case("client", "threshold", 8, 0, None, switch_us=500, rp=40, dur_ms=350))
+        for c in [c for i, c in enumerate(storm) if i % ctx.nworkers == ctx.worker]:
+            if ctx.out_of_time():
+                break
+            judge_storm(ctx, c, execute_storm(c), rn.known)
+        ctx.explore(storm_cases(big=ctx.tier != "quick"), lambda c: judge_storm(ctx, c, execute_storm(c), rn.known), ctx.scale(5, 70), shrink=False, seed_offset=3)
     finally:
         rn.close()
 
 
 def replay(ctx, case):
     rn = Runner(ctx, 1)
+    if case.get("family") == "storm":
+        r = execute_storm(case)
+        tries = 0
+        while not r["viol"] and not case.get("stall") and tries < 20:
+            # a free-running interleaving: the saved case names the configuration, not the schedule
+            r = execute_storm(case)
+            tries += 1
+        judge_storm(ctx, case, r, rn.known, record=False)
+        return
     case = normalise(case)
     r = execute(case)
     if ctx.tier and not ctx.unknown:
